@@ -9,6 +9,7 @@
 #include "common/harness.h"
 
 #include <atomic>
+#include <cstdlib>
 #include <map>
 #include <mutex>
 #include <thread>
@@ -171,7 +172,7 @@ void runThreads(const std::vector<const std::vector<Op> *> & scripts, int reps, 
 	for(auto & x : th) x.join();
 }
 
-Verdict run(const Program & p, const std::string & prop)
+Verdict runOnce(const Program & p, const std::string & prop)
 {
 	Verdict v;
 	const int subject = p.params.empty() ? 0 : p.params[0] & 3;
@@ -227,6 +228,18 @@ Verdict run(const Program & p, const std::string & prop)
 		v.fail("ts.race", prop, "ThreadSanitizer reported a data race that is not one of the library's documented unlocked reads (report on stderr / in the run log): " + v.trace, "ts.race");
 	}
 	else if(! lost.empty()) v.fail("ts.lost", "C06", lost);
+	return v;
+}
+// The OS owns the schedule here, so one execution of a saved program need not show the race again. When the driver
+// replays a failure it asks for several rounds (VERIF_REPLAY_ROUNDS); a round that fails is a real report either way.
+Verdict run(const Program & p, const std::string & prop)
+{
+	static const int rounds = []() { const char * e = getenv("VERIF_REPLAY_ROUNDS"); int n = e ? atoi(e) : 1; return n < 1 ? 1 : n; }();
+	Verdict v;
+	for(int i = 0; i < rounds; ++i) {
+		v = runOnce(p, prop);
+		if(! v.ok) break;
+	}
 	return v;
 }
 } // namespace
